@@ -173,7 +173,7 @@ def sk_adamantane():
     return 10, e
 
 
-FAMILIES = ["cage_mixture", "random_sparse", "random_dense", "tree", "path", "cycle", "ladder", "comb", "complete", "bipartite",
+FAMILIES = ["cage_mixture", "labelled_isolated", "random_sparse", "random_dense", "tree", "path", "cycle", "ladder", "comb", "complete", "bipartite",
             "union_identical", "prism", "cube", "petersen", "star", "isolated", "rare_elements", "partial_orbit",
             "wl_hard", "peptide", "two_components"]
 
@@ -308,6 +308,20 @@ def gen_mol(rng: random.Random, max_n=24, family=None) -> Mol:
         for _ in range(extra):
             syms.append(rng.choice(["Cl", "Na", "H", "O", "Br"]))
         return decorate(len(syms), e, rng, syms=syms, label_p=0.0 if rng.random() < 0.7 else 0.08, family=fam + ":" + kind)
+    if fam == "labelled_isolated":
+        # one to three bond-free atoms, most of them carrying an isotope and/or radical label
+        n = rng.choice([1, 1, 1, 2, 3])
+        syms = [rng.choice(["H", "He", "C", "Cl", "Na", "O"]) for _ in range(n)]
+        m = decorate(n, [], rng, syms=syms, label_p=0.0, family=fam)
+        for a in m.atoms:
+            r = rng.random()
+            if r < 0.4:
+                a["mass"] = rng.choice([2, 3, 13, 22, 37])
+            elif r < 0.6:
+                a["rad"] = rng.randint(1, 3)
+            elif r < 0.8:
+                a["mass"], a["rad"] = rng.choice([2, 3, 13]), rng.randint(1, 3)
+        return m
     if fam == "two_components":
         a = gen_mol(rng, max_n=max(1, max_n // 2), family="random_sparse")
         b = gen_mol(rng, max_n=max(1, max_n // 2), family="tree")
